@@ -9,8 +9,10 @@
 (*      (Tiling, Lines) - the same predicates T1 proves for the specification; *)
 (*   3. on request (c.g) runs the grammar recogniser BibGrammar!Recognise and   *)
 (*      reports whether the input is in the dialect and whether the grammar's   *)
-(*      blocks equal the scanner's (C02 on this input).                         *)
-EXTENDS BibGrammar, Json, IOUtils
+(*      blocks equal the scanner's (C02 on this input);                         *)
+(*   4. on request (c.lib) folds Library!AddLoop over the blocks (BibLibrary)   *)
+(*      and prints what sits at every position of the parsed library (C09).     *)
+EXTENDS BibLibrary, Json, IOUtils
 Trace == JsonDeserialize(IOEnv.TRACE_FILE)
 VARIABLES tid
 N == Len(Trace)
@@ -26,6 +28,8 @@ Next ==
               toks == Toks(c)
               out == Run(toks, FeMap(c))
           IN PrintT(ToJson([id |-> c.id, out |-> out,
+                            lib |-> IF c.lib THEN LibDesc(toks, out) ELSE <<>>,
+                            libok |-> IF c.lib THEN DupOK(toks, out) ELSE TRUE,
                             rec |-> IF c.g THEN LET r == Recognise(toks) IN [ok |-> r.ok, same |-> r.blocks = out]
                                     ELSE [ok |-> FALSE, same |-> FALSE],
                             obs |-> IF c.judge THEN ObsOK(toks, c.obs) ELSE "",
